@@ -1134,6 +1134,44 @@ def resolve_env(e, env, depth=0):
     return tuple(resolve_env(x, env, depth + 1) if isinstance(x, tuple) else x for x in e)
 
 
+def bool_resolved_atoms(fn, atoms0, env):
+    """The atoms of one path of enum_paths(.., want_env=True) with *boolean* locals that are assigned in several
+    arms, and tuples of them, read along the path (`let use = if a() { false } else { b() }`, `match (use, x < 0)`),
+    `!x` peeled and constant tests removed.  Returns (atoms, feasible): a path on which such a test is the constant
+    of the other polarity cannot be taken.  Integer locals stay opaque (their origin is read off their definitions)."""
+    def res(e, depth=0):
+        e = strip_casts(simplify_proj(strip_casts(e)))
+        if depth > 8:
+            return e
+        if e[0] == "var" and e[1] in env and str(fn.locals[e[1]]) == "bool":
+            v = env[e[1]]
+            if v[0] == "const":
+                return ("k", bool(v[1]))
+            if v[1] != e:
+                return res(v[1], depth + 1)
+            return e
+        if e[0] == "proj" and strip_casts(e[1])[0] == "var" and strip_casts(e[1])[1] in env and str(fn.locals[strip_casts(e[1])[1]]).startswith("("):
+            v = env[strip_casts(e[1])[1]]
+            if v[0] == "expr" and v[1] != strip_casts(e[1]):
+                return res(("proj", v[1]) + tuple(e[2:]), depth + 1)
+            return e
+        if e[0] == "un" and e[1] == "Not":
+            return ("un", "Not", res(e[2], depth + 1))
+        return e
+    atoms = []
+    feasible = True
+    for e, p in atoms0:
+        e = res(e)
+        while e[0] == "un" and e[1] == "Not" and isinstance(p, bool):
+            e, p = res(e[2]), not p
+        if e[0] == "k" and isinstance(e[1], bool) and isinstance(p, bool):
+            if e[1] != p:
+                feasible = False
+            continue
+        atoms.append((e, p))
+    return atoms, feasible
+
+
 def enum_paths(fn, start, targets, limit=20000, want_env=False, resolve_atoms=False):
     """Every acyclic feasible path from block `start` to a block in `targets`, as
     (target, [(expr, polarity)]).  Unlike path_conditions this is path-sensitive for locals that
